@@ -6,6 +6,28 @@ import (
 
 func init() {
 	verifEntries["VerifC06Watch"] = VerifC06Watch
+	verifEntries["VerifKFWtxnGetWatch"] = VerifKFWtxnGetWatch
+}
+
+// VerifKFWtxnGetWatch: plain probe of KF-wtxn-get-watch. A point query made
+// through a write transaction after that transaction's first write returns
+// the channel of a radix node the transaction created; a later insert of the
+// queried key in the same transaction must close it on Commit.
+func VerifKFWtxnGetWatch() {
+	d := newVDB()
+	t := d.table
+	w := d.db.WriteTxn(t)
+	t.Insert(w, &vobj{id: []byte("b")})
+	t.Insert(w, &vobj{id: []byte("d")})
+	w.Commit()
+	w = d.db.WriteTxn(t)
+	t.Insert(w, &vobj{id: []byte("c")})
+	_, _, ch, ok := t.GetWatch(w, vIDIndex.Query([]byte("e")))
+	vnd.Assert(!ok, "KF-wtxn-get-watch.harness")
+	vnd.Assert(!vnd.IsClosed(ch), "KF-wtxn-get-watch.open-when-handed-out")
+	t.Insert(w, &vobj{id: []byte("e")})
+	w.Commit()
+	vnd.Assert(vnd.IsClosed(ch), "KF-wtxn-get-watch.missed-change")
 }
 
 type c06watch struct {
@@ -85,7 +107,7 @@ func VerifC06Watch() {
 		vnd.Assert(!vnd.IsClosed(ch), "C06."+name+".open-when-handed-out")
 		ws = append(ws, &c06watch{name: name, ch: ch, result: result, before: result(S), table: table})
 	}
-	{
+	if vnd.Param("WTXNQ", 0) == 0 {
 		_, _, ch, _ := t.GetWatch(S, vIDIndex.Query(qid))
 		add("get", ch, false, func(txn ReadTxn) []obsItem {
 			o, r, ok := t.Get(txn, vIDIndex.Query(qid))
@@ -126,15 +148,74 @@ func VerifC06Watch() {
 			}
 		}
 	})
+	// KEYFAM=1: keys of the later writes and of the write-transaction queries are "a" + one
+	// symbolic byte in '4'..'7' (next to / among the children of a PRESET node)
+	famKey := func(tag string) []byte {
+		if vnd.Param("KEYFAM", 0) == 1 {
+			b := vnd.Byte(tag + ".b")
+			vnd.Assume(vnd.And(b >= '4', b <= '7'))
+			return []byte{'a', b}
+		}
+		return vnd.Bytes(tag, L)
+	}
 	for i := 0; i < N; i++ {
-		k := vnd.Bytes("k", L)
-		switch vnd.IntRange("op", 0, 2) {
+		k := famKey("k")
+		op := vnd.IntRange("op", 0, 2)
+		if vnd.Param("NOMOVE", 0) == 1 && op == 1 {
+			vnd.Assume(false) // menu without the insert that moves the object to other index keys
+		}
+		switch op {
 		case 0:
 			t.Insert(w, &vobj{id: k, tags: [][]byte{{'t'}}, pfx: []byte{0x10}, plen: 4, val: uint64(i)})
 		case 1:
 			t.Insert(w, &vobj{id: k, tags: [][]byte{{'v'}}, pfx: []byte{0x20}, plen: 4, val: uint64(i)})
 		case 2:
 			t.Delete(w, &vobj{id: k})
+		}
+		if i == 0 && vnd.Param("WTXNQ", 0) == 1 {
+			// queries made through the write transaction itself, after its first write:
+			// their channels guard the result as the transaction saw it at that point
+			// (a later write of the same transaction that changes it must close them
+			// when the transaction commits)
+			wq := famKey("wq")
+			addW := func(name string, ch <-chan struct{}, result func(txn ReadTxn) []obsItem) {
+				vnd.Assert(!vnd.IsClosed(ch), "C06."+name+".open-when-handed-out")
+				ws = append(ws, &c06watch{name: name, ch: ch, result: result, before: result(w)})
+			}
+			// one query kind per path: iterator-style queries freeze the index
+			// (they bump the radix transaction id), which would mask what a lone
+			// point query leaves behind
+			var ch <-chan struct{}
+			switch vnd.IntRange("wqkind", 0, 6) {
+			case 0:
+				_, _, ch, _ = t.GetWatch(w, vIDIndex.Query(wq))
+				addW("wtxn-get", ch, func(txn ReadTxn) []obsItem {
+					o, r, ok := t.Get(txn, vIDIndex.Query(wq))
+					if !ok {
+						return nil
+					}
+					return []obsItem{{o, r}}
+				})
+			case 1:
+				_, ch = t.ListWatch(w, vIDIndex.Query(wq))
+				addW("wtxn-list", ch, func(txn ReadTxn) []obsItem { return seqItems(t.List(txn, vIDIndex.Query(wq))) })
+			case 2:
+				_, ch = t.ListWatch(w, vTagsIndex.Query(qtag))
+				addW("wtxn-list-tags", ch, func(txn ReadTxn) []obsItem { return seqItems(t.List(txn, vTagsIndex.Query(qtag))) })
+			case 3:
+				_, ch = t.PrefixWatch(w, vIDIndex.Query(wq))
+				addW("wtxn-prefix", ch, func(txn ReadTxn) []obsItem { return seqItems(t.Prefix(txn, vIDIndex.Query(wq))) })
+			case 4:
+				_, ch = t.LowerBoundWatch(w, vIDIndex.Query(wq))
+				addW("wtxn-lowerbound", ch, func(txn ReadTxn) []obsItem { return seqItems(t.LowerBound(txn, vIDIndex.Query(wq))) })
+			case 5:
+				_, ch = t.AllWatch(w)
+				addW("wtxn-all", ch, func(txn ReadTxn) []obsItem { return seqItems(t.All(txn)) })
+			case 6:
+				_, ch = t.ListWatch(w, vLPMIndex.Query([]byte{0x10}, 4))
+				addW("wtxn-list-lpm", ch, func(txn ReadTxn) []obsItem { return seqItems(t.List(txn, vLPMIndex.Query([]byte{0x10}, 4))) })
+			}
+			vnd.Cover("C06.wtxn-queries")
 		}
 	}
 	for _, x := range ws {
